@@ -208,9 +208,9 @@ static void parse_field_line(const std::vector<std::string> &t, MsgInfo &mi, uns
   } else {
     throw EnvError("bad quant " + t[4]);
   }
-  if (t[5] != "0" && t[5] != "1") throw EnvError("bad packed flag");
+  if (t[5] != "0" && t[5] != "1" && t[5] != "2" && t[5] != "3") throw EnvError("bad packed flag");
   if (t[6] != "0" && t[6] != "1") throw EnvError("bad oneof flag");
-  f.packed = t[5] == "1";
+  f.packed = t[5] == "1" || t[5] == "3";   // bit 1 = DEPRECATED, ignored here
   f.oneof_flag = t[6] == "1";
   if (f.type == T_MESSAGE) {
     uint64_t sub = parse_u64<EnvError>(t[7], "sub");
